@@ -120,6 +120,10 @@ func mergeVals(conds []*Term, vals []Val) (Val, error) {
 		if valEq(v, r) {
 			continue
 		}
+		if m, ok := mergeFuncVals(conds[i], v, r); ok {
+			r = m
+			continue
+		}
 		if v.Ptr != nil || r.Ptr != nil || v.Clo != nil || r.Clo != nil {
 			return Val{}, fmt.Errorf("cannot merge meta-level pointer/closure values")
 		}
